@@ -176,6 +176,44 @@ def make_data(n, seed, kind='noise'):
 PARAM_KEYS = ('weights', 'signal', 'alpha', 'coef', 'mask')
 
 
+def flatten_params(value, prefix, res, depth=0):
+    """Every numeric entry of the params dictionary (nested dicts / lists of arrays included) as a flat list
+    under a path key; non-numeric entries are skipped."""
+    import numpy as np
+    if isinstance(value, dict):
+        for k in sorted(value, key=str):
+            flatten_params(value[k], f'{prefix}{k}.' if depth else f'{prefix}{k}.', res, depth + 1)
+        return
+    key = prefix.rstrip('.')
+    if value is None or isinstance(value, str):
+        return
+    try:
+        arr = np.asarray(value, dtype=float)
+    except (TypeError, ValueError):
+        if isinstance(value, (list, tuple)) and depth < 4:
+            for i, v in enumerate(value):
+                flatten_params(v, f'{key}[{i}].', res, depth + 1)
+        return
+    if arr.dtype == object:
+        return
+    res[key] = arr.ravel().tolist()
+    res[key + '#shape'] = [float(v) for v in arr.shape]
+
+
+def call_functional(name, x, y, kw):
+    """the module-level (functional) interface: pybaselines.<module>.<name>(data, x_data=x, **kw)"""
+    import importlib
+    import numpy as np
+    from harness import methods
+    for mod in ('whittaker', 'morphological', 'polynomial', 'spline', 'classification', 'optimizers', 'misc', 'smooth'):
+        m = importlib.import_module('pybaselines.' + mod)
+        if hasattr(m, name):
+            kws = methods.call_kwargs(name, **kw)
+            data = np.vstack([y, y * 1.1 + 1]) if name == 'collab_pls' else y
+            return getattr(m, name)(data, x_data=x, **kws)
+    raise AttributeError(name)
+
+
 def run_oracle(job):
     import numpy as np
     from pybaselines import Baseline
@@ -199,14 +237,12 @@ def run_oracle(job):
         with warnings.catch_warnings(), np.errstate(all='ignore'):
             warnings.simplefilter('ignore')
             try:
-                base, params = methods.run_1d(job['method'], x, y, fitter=f, **job.get('kw', {}))
+                if job.get('functional'):
+                    base, params = call_functional(job['method'], x, y, job.get('kw', {}))
+                else:
+                    base, params = methods.run_1d(job['method'], x, y, fitter=f, **job.get('kw', {}))
                 res['baseline'] = np.asarray(base, dtype=float).ravel().tolist()
-                for k in PARAM_KEYS:
-                    if k in params and params[k] is not None:
-                        try:
-                            res['p:' + k] = np.asarray(params[k], dtype=float).ravel().tolist()
-                        except (TypeError, ValueError):
-                            pass
+                flatten_params(params, 'p:', res)       # EVERY entry of params, nested ones included
                 th = params.get('tol_history')
                 if th is not None:
                     res['n_tol'] = int(np.asarray(th).shape[0])
